@@ -22,10 +22,11 @@ pub fn oligo_paths(seed: u64, groups: usize, dir: &str, maxn: usize) {
         let n = if g % 3 == 1 { rng.range(250, 500) as usize } else { rng.range(1, maxn as u64) as usize };
         let k = 1 + (g % 4);
         let delim = ["", " ", ",", "\t", "::"][g % 5];
-        // non-empty sequences (FASTQ cannot hold an empty one); ambiguous bytes allowed
+        // every fourth group holds records without bases as well; FASTQ cannot hold those, so its FASTQ containers are left out
+        let with_empty = g % 4 == 2;
         let recs: Vec<Rec> = (0..n)
             .map(|i| {
-                let len = rng.range(1, 150) as usize;
+                let len = if with_empty && i % 3 == 1 { 0 } else { rng.range(1, 150) as usize };
                 let mut s = gen_seq(&mut rng, len, false);
                 for b in s.iter_mut() {
                     // keep FASTQ/FASTA structure characters out of sequence lines
@@ -55,10 +56,14 @@ pub fn oligo_paths(seed: u64, groups: usize, dir: &str, maxn: usize) {
         inputs.push(mk("fa", "fa", plain.clone(), None, &mut rng));
         inputs.push(mk("wrapped", "fasta", Layout { wrap: rng.range(1, 60) as usize, ..plain.clone() }, None, &mut rng));
         inputs.push(mk("crlf", "fna", Layout { crlf: true, final_nl: false, ..plain.clone() }, None, &mut rng));
-        inputs.push(mk("fq", "fq", Layout { fastq: true, ..plain.clone() }, None, &mut rng));
+        if !with_empty {
+            inputs.push(mk("fq", "fq", Layout { fastq: true, ..plain.clone() }, None, &mut rng));
+        }
         inputs.push(mk("gz", "fa.gz", plain.clone(), Some((1, false)), &mut rng));
         inputs.push(mk("gz3", "fasta.gz", plain.clone(), Some((3, g % 2 == 0)), &mut rng));
-        inputs.push(mk("fqgz2", "fastq.gz", Layout { fastq: true, ..plain.clone() }, Some((2, false)), &mut rng));
+        if !with_empty {
+            inputs.push(mk("fqgz2", "fastq.gz", Layout { fastq: true, ..plain.clone() }, Some((2, false)), &mut rng));
+        }
         let mut first: Option<String> = None;
         for (label, path) in &inputs {
             for (pname, wp) in [("mmap", WPath::Mmap), ("batch", WPath::Batch)] {
